@@ -543,6 +543,19 @@ func (e *executor) exec(line, lean string) string {
 					obs = "0"
 				}
 				accOut = "acc=" + obs
+				// direct oracle (C13), from the implementation's own exact count: the configured budget
+				// tolerates failure probability MaxFailRate over MaxTrials attempts, i.e. a single-attempt
+				// success chance of at least p* = 1 - MaxFailRate^(1/MaxTrials)
+				if M.Sign() > 0 && cnt.Sign() >= 0 && spg.MaxTrials > 0 && spg.MaxFailRate > 0 && spg.MaxFailRate < 1 && n > 0 && spec.L >= 1 {
+					pi, _ := new(big.Float).Quo(new(big.Float).SetInt(cnt), new(big.Float).SetInt(M)).Float64()
+					pstar := 1 - math.Pow(spg.MaxFailRate, 1/float64(spg.MaxTrials))
+					if obs == "0" && pi > 1.5*pstar+1e-9 {
+						accOut += fmt.Sprintf(" REFUSED-ABOVE-THRESHOLD(p=%.4g,needed=%.4g)", pi, pstar)
+					}
+					if obs == "1" && pi < pstar/1.5 {
+						accOut += fmt.Sprintf(" ACCEPTED-BELOW-THRESHOLD(p=%.4g,needed=%.4g)", pi, pstar)
+					}
+				}
 			}
 		}
 		branch("charinfo:acc=" + accF)
@@ -788,6 +801,31 @@ func (e *executor) exec(line, lean string) string {
 		}
 		if !strings.HasPrefix(pw, cat) {
 			l += " PREFIX-FAIL"
+		}
+		// each token has exactly the character count the index specifies (C12)
+		if len(idx) > 0 {
+			toks := q.Tokens()
+			for i, t := range toks {
+				want := -1
+				switch idx[0] {
+				case 0:
+					want = 1
+				case 1, 2:
+					if 1+i < len(idx) {
+						want = int(idx[1+i])
+					}
+				case 3:
+					if 1+2*i < len(idx) {
+						want = int(idx[1+2*i])
+					}
+				}
+				if got := len(strings.Split(t.Value(), "")); t.Value() == "" && want == 0 {
+					continue
+				} else if want >= 0 && got != want {
+					l += fmt.Sprintf(" COUNT-FAIL(token %d has %d characters, index says %d)", i, got, want)
+					break
+				}
+			}
 		}
 		if q.Entropy != ent {
 			l += " ENTROPY-CHANGED"
@@ -1067,7 +1105,8 @@ func matchWords(pw string, kept []string, L int, sep, scheme string) bool {
 		}
 	case strings.HasPrefix(sep, "recipe:"):
 		spec := parseRecipe(sep[7:])
-		alpha := spec.build().Alphabet()
+		br := spec.build()
+		alpha := (&br).Alphabet()
 		capt.take()
 		sepMatch = func(s string) []int {
 			n := 0
